@@ -150,6 +150,7 @@ def cmd_campaign(tier: str, verif_seed: int, workers: int) -> int:
     harness_problem: str | None = None
     known_hits: list = []
     unknown_bad: dict | None = None
+    worker_crashes = 0
     try:
         # ---- 1. determinism mini-proof (DESIGN.md 3.4) ------------------------------------
         n = cfg['det_seeds']
@@ -195,33 +196,52 @@ def cmd_campaign(tier: str, verif_seed: int, workers: int) -> int:
         # heavy chunks first: they are the long poles
         rest.sort(key=lambda c: (not c[1].startswith('heavy'), c[3][0]))
         chunks += rest
-        futures = [pool.submit(campaign.run_chunk, c) for c in chunks] if harness_problem is None else []
+        tasks: list = [(campaign.run_chunk, c) for c in chunks] if harness_problem is None else []
         if harness_problem is None:
             from sim import hyp
 
             for kind, (n_chunks, n_examples) in cfg.get('hyp', {}).items():
                 for k in range(n_chunks):
                     hseed = campaign.run_seed_of(verif_seed, 'hypothesis-' + kind, k)
-                    futures.append(pool.submit(hyp.hypothesis_chunk, (hseed, kind == 'heavy', n_examples, deadline)))
-        for fut in concurrent.futures.as_completed(futures):
-            part = fut.result()
-            bad = part['bad']
-            part['bad'] = None
-            campaign.merge_agg(total, part)
-            if bad is None:
-                continue
-            if bad['result']['status'] == 'harness':
-                harness_problem = f'HARNESS-ERROR in run {bad["sub"]}#{bad["index"]} seed={bad["spec"]["seed"]}:\n{bad["result"]["harness_error"]}'
+                    tasks.append((hyp.hypothesis_chunk, (hseed, kind == 'heavy', n_examples, deadline)))
+        # A worker that dies abruptly (a crash inside native JAX/XLA code is the only way seen) gives
+        # no verdict for its chunk: the pool is rebuilt and the unfinished chunks are run again, at most
+        # three times; the crashes are counted in the evidence.  More than that is a harness error.
+        while tasks and harness_problem is None and unknown_bad is None:
+            futures = {pool.submit(fn, args): (fn, args) for fn, args in tasks}
+            finished: set = set()
+            broke = False
+            for fut in concurrent.futures.as_completed(list(futures)):
+                try:
+                    part = fut.result()
+                except concurrent.futures.process.BrokenProcessPool:
+                    broke = True
+                    break
+                finished.add(fut)
+                bad = part['bad']
+                part['bad'] = None
+                campaign.merge_agg(total, part)
+                if bad is None:
+                    continue
+                if bad['result']['status'] == 'harness':
+                    harness_problem = f'HARNESS-ERROR in run {bad["sub"]}#{bad["index"]} seed={bad["spec"]["seed"]}:\n{bad["result"]["harness_error"]}'
+                    break
+                hit = match_known(known, bad['result']['violation'], bad['spec'])
+                if hit is not None:
+                    known_hits.append((hit, bad))
+                    continue
+                unknown_bad = bad
                 break
-            hit = match_known(known, bad['result']['violation'], bad['spec'])
-            if hit is not None:
-                known_hits.append((hit, bad))
-                continue
-            unknown_bad = bad
-            break
-        if harness_problem or unknown_bad:
-            for fut in futures:
-                fut.cancel()
+            if not broke:
+                break
+            worker_crashes += 1
+            tasks = [t for f, t in futures.items() if f not in finished]
+            out(f'note: a worker process died abruptly (crash #{worker_crashes}); rebuilding the pool and re-running {len(tasks)} unfinished chunk(s)')
+            campaign.kill_pool(pool)
+            if worker_crashes > 3:
+                harness_problem = 'HARNESS-ERROR: worker processes keep dying abruptly; see stderr for the faulthandler dumps'
+                break
+            pool = campaign.make_pool(workers)
     finally:
         campaign.kill_pool(pool)
 
@@ -321,7 +341,7 @@ def cmd_campaign(tier: str, verif_seed: int, workers: int) -> int:
         out(harness_problem)
         rc = 2
 
-    write_evidence(tier, verif_seed, total, determinism, tree, time.time() - t_start, violations, minimised, workers, run_wall)
+    write_evidence(tier, verif_seed, total, determinism, tree, time.time() - t_start, violations, minimised, workers, run_wall, worker_crashes)
     runs = total['runs']
     out(
         f'runs={runs} ({runs / max(run_wall, 1e-9) * 3600:.0f}/h) interleavings={len(total["interleavings"])} nontrivial={len(total["nontrivial"])} '
@@ -377,7 +397,7 @@ REQUIRED_PROBES = [
 ]
 
 
-def write_evidence(tier, verif_seed, total, determinism, tree, wall, violations, minimised, workers, run_wall) -> None:
+def write_evidence(tier, verif_seed, total, determinism, tree, wall, violations, minimised, workers, run_wall, worker_crashes=0) -> None:
     runs = total['runs']
     samples = []
     for s in total['samples'][:3]:
@@ -426,6 +446,7 @@ def write_evidence(tier, verif_seed, total, determinism, tree, wall, violations,
             'reach_probes_at_zero': [p for p in REQUIRED_PROBES if total['probes'].get(p, 0) == 0],
             'determinism_selfcheck': determinism,
             'chunks_cut_short_by_wall_cap': total['cut_short'],
+            'worker_processes_crashed_and_chunks_rerun': worker_crashes,
             'minimisation': minimised,
             'real_vs_stub': {
                 'real': [
